@@ -1,8 +1,8 @@
 #!/usr/bin/env python3
-"""Fail-closed translator: votelib/component/{divisor,quota}.py -> Gallina.
+"""Fail-closed translator: votelib/component/{divisor,quota,pairwin_scorer}.py -> Gallina.
 
 usage: py2v.py <repo> <outdir>
-Writes <outdir>/Divisor.v, <outdir>/Quota.v and <outdir>/STATUS.json.
+Writes <outdir>/Divisor.v, <outdir>/Quota.v, <outdir>/Pairwin.v and <outdir>/STATUS.json.
 Accepted subset (anything else raises Unsupported and the unit is marked failed):
   def f(a: int, b: int) -> T:  [docstring]  body
   body ::= return e | if c: body else: body
@@ -214,6 +214,148 @@ def translate_file(path, wanted, skip, module):
     return (HEADER % module) + '\n' + '\n\n'.join(out) + '\n', status, missing
 
 
+# ---------------------------------------------------------------- pairwise win scorers (dict -> dict over integer counts)
+PW_HEADER = '''(* GENERATED by tools/py2v.py from %s -- do not edit. *)
+From Coq Require Import ZArith List.
+From VL Require Import Prelude.PyDict Model.Condorcet.
+Open Scope Z_scope.
+'''
+
+
+class PwFn:
+    """def f(counts: Dict[pair, Number]) -> Dict[pair, Number]:
+         return counts | return {pair: E for pair, count in counts.items()}
+       E ::= count | int literal | counts.get(tuple(reversed(pair)), 0) | E - E | E + E | (E if C else E) ; C ::= E (<|<=|>|>=|==) E"""
+
+    def __init__(self, arg, key, val, kq, vq):
+        self.arg, self.key, self.val, self.kq, self.vq = arg, key, val, kq, vq
+
+    def expr(self, e):
+        if isinstance(e, ast.Constant) and isinstance(e.value, int) and not isinstance(e.value, bool):
+            return '(%d)' % e.value
+        if isinstance(e, ast.Name) and e.id == self.val:
+            return self.vq
+        if isinstance(e, ast.BinOp) and type(e.op) in (ast.Sub, ast.Add):
+            return '(%s %s %s)' % (self.expr(e.left), '-' if isinstance(e.op, ast.Sub) else '+', self.expr(e.right))
+        if isinstance(e, ast.IfExp):
+            return '(if %s then %s else %s)' % (self.cond(e.test), self.expr(e.body), self.expr(e.orelse))
+        if isinstance(e, ast.Call) and ast.unparse(e) == '%s.get(tuple(reversed(%s)), 0)' % (self.arg, self.key):
+            return '(pget0 %s (swap %s))' % (self.arg, self.kq)
+        die(e, 'expression')
+
+    def cond(self, c):
+        if isinstance(c, ast.Compare) and len(c.ops) == 1:
+            l, r, op = self.expr(c.left), self.expr(c.comparators[0]), c.ops[0]
+            if isinstance(op, ast.Gt):
+                return '(%s <? %s)' % (r, l)
+            if isinstance(op, ast.GtE):
+                return '(%s <=? %s)' % (r, l)
+            if isinstance(op, ast.Lt):
+                return '(%s <? %s)' % (l, r)
+            if isinstance(op, ast.LtE):
+                return '(%s <=? %s)' % (l, r)
+            if isinstance(op, ast.Eq):
+                return '(%s =? %s)' % (l, r)
+        die(c, 'condition')
+
+
+def translate_pairwin(path, wanted, module):
+    tree = ast.parse(open(path).read())
+    fds = {n.name: n for n in tree.body if isinstance(n, ast.FunctionDef)}
+    out, status = [], {}
+    for name in wanted:
+        try:
+            fd = fds.get(name)
+            if fd is None:
+                raise Unsupported('function %s not found' % name)
+            if len(fd.args.args) != 1 or fd.args.vararg or fd.args.kwarg or fd.args.kwonlyargs:
+                die(fd, 'parameter list')
+            arg = fd.args.args[0].arg
+            stmts = [x for x in fd.body if not (isinstance(x, ast.Expr) and isinstance(x.value, ast.Constant) and isinstance(x.value.value, str))]
+            if len(stmts) != 1 or not isinstance(stmts[0], ast.Return):
+                die(fd, 'body must be a single return')
+            rv = stmts[0].value
+            if isinstance(rv, ast.Name) and rv.id == arg:
+                body = arg
+            elif isinstance(rv, ast.DictComp) and len(rv.generators) == 1:
+                g = rv.generators[0]
+                if g.ifs or g.is_async or ast.unparse(g.iter) != '%s.items()' % arg or not isinstance(g.target, ast.Tuple) \
+                        or len(g.target.elts) != 2 or not all(isinstance(x, ast.Name) for x in g.target.elts):
+                    die(rv, 'comprehension generator')
+                key, val = g.target.elts[0].id, g.target.elts[1].id
+                kq, vq = 'k_' + key, 'v_' + val      # avoid clashes with Coq identifiers (pair)
+                if not (isinstance(rv.key, ast.Name) and rv.key.id == key):
+                    die(rv, 'comprehension key')
+                body = 'map (fun kv : pair * Z => let %s := fst kv in let %s := snd kv in (%s, %s)) %s' % (
+                    kq, vq, kq, PwFn(arg, key, val, kq, vq).expr(rv.value), arg)
+            else:
+                die(rv, 'return value')
+            out.append('Definition %s (%s : pvotes) : pvotes :=\n  %s.' % (name, arg, body))
+            status[name] = 'ok'
+        except Unsupported as e:
+            status[name] = 'unsupported: %s' % e
+    missing = [w for w in wanted if status.get(w) != 'ok']
+    return (PW_HEADER % module) + '\n' + '\n\n'.join(out) + '\n', status, missing
+
+
+# ---------------------------------------------------------------- rank scorers (classes with a scores(n_ranked) method)
+class _SelfAttr(ast.NodeTransformer):
+    def visit_Attribute(self, node):
+        if isinstance(node.value, ast.Name) and node.value.id == 'self':
+            return ast.copy_location(ast.Name(id=node.attr, ctx=ast.Load()), node)
+        return self.generic_visit(node)
+
+
+def translate_rankscore(path, wanted, module):
+    """class X(RankScorer): [def __init__(self, a: int [= d]): self.a = a]  def scores(self, n_ranked: int): return [E for rank in range(n_ranked)]
+       -> Definition X_score (a : Z) (n_ranked : Z) (rank : Z) : Q := E   (one element of the list, as a function of the rank)"""
+    tree = ast.parse(open(path).read())
+    classes = {n.name: n for n in tree.body if isinstance(n, ast.ClassDef)}
+    out, status = [], {}
+    for name in wanted:
+        try:
+            cd = classes.get(name)
+            if cd is None:
+                raise Unsupported('class %s not found' % name)
+            meths = {m.name: m for m in cd.body if isinstance(m, ast.FunctionDef)}
+            attrs = []
+            if '__init__' in meths:
+                init = meths['__init__']
+                for a in init.args.args[1:]:
+                    if a.annotation is None or ast.unparse(a.annotation) != 'int':
+                        die(a, 'constructor parameter must be annotated int')
+                    attrs.append(a.arg)
+                for st_ in init.body:
+                    if isinstance(st_, ast.Expr) and isinstance(st_.value, ast.Constant):
+                        continue
+                    if not (isinstance(st_, ast.Assign) and len(st_.targets) == 1 and ast.unparse(st_.targets[0]) in ['self.' + a for a in attrs]
+                            and isinstance(st_.value, ast.Name) and 'self.' + st_.value.id == ast.unparse(st_.targets[0])):
+                        die(st_, 'constructor must only store its parameters')
+            sc = meths.get('scores')
+            if sc is None or [a.arg for a in sc.args.args] != ['self', 'n_ranked']:
+                die(cd, 'scores(self, n_ranked)')
+            stmts = [x for x in sc.body if not (isinstance(x, ast.Expr) and isinstance(x.value, ast.Constant) and isinstance(x.value.value, str))]
+            if len(stmts) != 1 or not isinstance(stmts[0], ast.Return) or not isinstance(stmts[0].value, ast.ListComp):
+                die(sc, 'scores must return one list comprehension')
+            lc = stmts[0].value
+            if len(lc.generators) != 1 or lc.generators[0].ifs or ast.unparse(lc.generators[0].iter) != 'range(n_ranked)' \
+                    or not isinstance(lc.generators[0].target, ast.Name):
+                die(lc, 'comprehension over range(n_ranked)')
+            rank = lc.generators[0].target.id
+            env = {a: 'Z' for a in attrs}
+            env.update({'n_ranked': 'Z', rank: 'Z'})
+            elt = _SelfAttr().visit(lc.elt)
+            ast.fix_missing_locations(elt)
+            text = Fn(env, {}).expr(elt)
+            params = ' '.join('(%s : Z)' % a for a in attrs + ['n_ranked', rank])
+            out.append('Definition %s_score %s : Q :=\n  %s.' % (name, params, text))
+            status[name] = 'ok'
+        except Unsupported as e:
+            status[name] = 'unsupported: %s' % e
+    missing = [w for w in wanted if status.get(w) != 'ok']
+    return (HEADER % module) + '\n' + '\n\n'.join(out) + '\n', status, missing
+
+
 def main():
     repo, outdir = sys.argv[1], sys.argv[2]
     os.makedirs(outdir, exist_ok=True)
@@ -236,6 +378,33 @@ def main():
         old = open(dst).read() if os.path.exists(dst) else None
         if old != text:          # keep timestamps stable for make
             open(dst, 'w').write(text)
+    # pairwise win scorers
+    rel = 'votelib/component/pairwin_scorer.py'
+    wanted = ['winning_votes', 'margins', 'pairwise_opposition']
+    dst = os.path.join(outdir, 'Pairwin.v')
+    try:
+        text, status, missing = translate_pairwin(os.path.join(repo, rel), wanted, rel)
+        st['Pairwin'] = dict(status='ok' if not missing else 'partial', functions=status, missing=missing, source=rel)
+    except (Unsupported, SyntaxError, OSError) as e:
+        text = PW_HEADER % rel
+        st['Pairwin'] = dict(status='failed', reason=str(e), source=rel, missing=wanted)
+    old = open(dst).read() if os.path.exists(dst) else None
+    if old != text:
+        open(dst, 'w').write(text)
+    # rank scorers
+    rel = 'votelib/component/rankscore.py'
+    wanted = ['Dowdall', 'Geometric', 'ModifiedBorda', 'FixedTop']
+    dst = os.path.join(outdir, 'Rankscore.v')
+    try:
+        text, status, missing = translate_rankscore(os.path.join(repo, rel), wanted, rel)
+        st['Rankscore'] = dict(status='ok' if not missing else 'partial', functions=status, missing=missing, source=rel,
+                               note='Borda (stateful set_n_candidates) and SequenceBased (select_padded slicing) are tied by correspondence (C13)')
+    except (Unsupported, SyntaxError, OSError) as e:
+        text = HEADER % rel
+        st['Rankscore'] = dict(status='failed', reason=str(e), source=rel, missing=wanted)
+    old = open(dst).read() if os.path.exists(dst) else None
+    if old != text:
+        open(dst, 'w').write(text)
     json.dump(st, open(os.path.join(outdir, 'STATUS.json'), 'w'), indent=1)
     print(json.dumps(st, indent=1))
 
